@@ -9,10 +9,32 @@ structure St where
   failIdx : List Nat := []
   failNames : List String := []
   ctxs : List Ctx := []
+  acts : List (String × String) := []
+  stdin : List String := []
 
 def St.env (st : St) : Env :=
   { defined := fun n => st.defined.contains n
-    fails := fun i h => st.failIdx.contains i || st.failNames.contains h }
+    fails := fun i h => st.failIdx.contains i || st.failNames.contains h
+    reads := fun h => match st.acts.lookup h with
+      | some "read" => .line
+      | some "cat" => .all
+      | _ => .none }
+
+/-- `name=act` (the name may contain anything but `,` and blanks; the act is the part after the last `=`). -/
+def parseAct (s : String) : Option (String × String) :=
+  match (s.splitOn "=").reverse with
+  | act :: (n :: ns) => some (String.intercalate "=" (n :: ns).reverse, act)
+  | _ => none
+
+/-- What a handler logs about its standard input: `-` not read, `eof`, `l:<line>`, `a:<line>+<line>+…`. -/
+def showSeen (u : StdinUse) : Option (List String) → String
+  | none => "-"
+  | some ls =>
+    match u with
+    | .all => "a:" ++ String.join (ls.map (· ++ "+"))
+    | _ => match ls with
+      | [] => "eof"
+      | l :: _ => "l:" ++ l
 
 def optArg (key : String) (toks : List String) : Option String :=
   match kv? key toks with
@@ -54,7 +76,15 @@ def step (st : St) (toks : List String) : St × String :=
       | none => "abort"
       | some l => "cands=" ++ showStrs l
     ({ st with ctxs := st.ctxs ++ [c] }, ans)
-  | "run" :: args => (st, showResult (hookRun st.env args st.ctxs))
+  | ["acts", l] =>
+    match (strList l).mapM parseAct with
+    | some as => ({ st with acts := as }, "ok")
+    | none => (st, "bad-op")
+  | ["stdin", l] => ({ st with stdin := strList l }, "ok")
+  | "run" :: args =>
+    let (r, seen) := hookRunIO st.env args st.stdin st.ctxs
+    let uses := r.log.map fun (_, h) => st.env.reads h
+    (st, showResult r ++ " in=" ++ showStrs ((uses.zip seen).map fun (u, s) => showSeen u s))
   | "oracle" :: "run" :: rest =>
     -- the property itself on what the implementation showed (documented names, not the table)
     match (kv? "log" rest).bind parseLog, bit? (kv? "config" rest), bit? (kv? "ok" rest), kv? "args" rest with
